@@ -1,6 +1,6 @@
 (** C13 — all classes together, the reading "an invalid construct is rejected", and the
     witness of the known gap. *)
-From Educe.Proofs Require Export P_C13m.
+From Educe.Proofs Require Export P_C13n.
 
 (** every outcome of the model is items, a diagnostic, or "outside the modelled grammar" *)
 Lemma not_ok_rejected F d :
@@ -37,7 +37,8 @@ Proof.
     (R14_union_unsupported _ _ _ H), (R15_unit_variant _ _ _ H), (R6_default_designation _ _ _ H),
     (R7_deref_designation _ _ _ H), (R8_into_target_twice _ _ _ H), (R5_into_multi _ _ _ H),
     (R5_into_none _ _ _ H), (R5_into_undeclared _ _ _ H), (R3_rank_twice _ _ _ H),
-    (R16_debug_nothing _ _ _ H), (R12_name_on_positional _ _ _ H).
+    (R16_debug_nothing _ _ _ H), (R12_name_on_positional _ _ _ H), (R12_companion_bound _ _ _ H),
+    (R12_default_beside_type_expression _ _ _ H).
   cbn [andb app].
   destruct (known_gap F d) eqn:Hg.
   - cbn. rewrite !andb_false_r. reflexivity.
@@ -55,7 +56,8 @@ Proof.
     (R14_union_unsupported _ _ _ H), (R15_unit_variant _ _ _ H), (R6_default_designation _ _ _ H),
     (R7_deref_designation _ _ _ H), (R8_into_target_twice _ _ _ H), (R5_into_multi _ _ _ H),
     (R5_into_none _ _ _ H), (R5_into_undeclared _ _ _ H), (R3_rank_twice _ _ _ H),
-    (R16_debug_nothing _ _ _ H), (R12_name_on_positional _ _ _ H), (R11_unknown_param _ _ _ H Hg),
+    (R16_debug_nothing _ _ _ H), (R12_name_on_positional _ _ _ H), (R12_companion_bound _ _ _ H),
+    (R12_default_beside_type_expression _ _ _ H), (R11_unknown_param _ _ _ H Hg),
     (R1'_attr_trait_twice _ _ _ H Hg), (R2_param_twice _ _ _ H Hg), (R12_param_misplaced _ _ _ H Hg).
   reflexivity.
 Qed.
